@@ -16,8 +16,11 @@ for i in range(1, 21):
             extra.append(f"{k.replace('_', ' ')} {c[k]:,}".replace(",", " "))
     if "task_model_validation" in c:
         extra.append(f"task-model validated {c['task_model_validation']['accepted']}")
-    rows.append(f"| {pid} | {c['states']:,} | {c['traces_validated_against_impl']:,} ({'; '.join(extra)}) | {c['canaries']['rejected']}/{c['canaries']['planted']} | {e['wall_s']:.0f} s |".replace(",", " "))
-table = ("| id | model states (distinct) | executions of real code judged by / replayed from TLC | canaries rejected | wall |\n|---|---|---|---|---|\n" + "\n".join(rows) + "\n")
+    m = re.search(r"wall=([\d.]+)s", c.get("optimized_pass", {}).get("summary", ""))
+    second = f"{float(m.group(1)):.0f} s" if m else "-"
+    guards = len(c.get("witnesses", [])) + len(c.get("sensitivity", []))
+    rows.append(f"| {pid} | {c['states']:,} | {c['traces_validated_against_impl']:,} ({'; '.join(extra)}) | {c['canaries']['rejected']}/{c['canaries']['planted']} | {guards} | {e['wall_s']:.0f} s + {second} |".replace(",", " "))
+table = ("| id | model states (distinct) | executions of real code judged by / replayed from TLC (first pass) | canaries rejected | vacuity + sensitivity guards | wall: first pass + pass under -O |\n|---|---|---|---|---|---|\n" + "\n".join(rows) + "\n")
 p = os.path.join(V, "DESIGN.md")
 s = open(p).read()
 a = s.index("Measured quick tier on the repaired tree")
